@@ -1,6 +1,7 @@
 import XModel.ManagerFrame
 import XModel.ManagerC17
 import XModel.ManagerC17b
+import XModel.ManagerC17Hist
 /-!
 # C17 — a frozen manager's expression graph cannot change, yet values still propagate
 
@@ -8,6 +9,11 @@ Only property theorems and non-vacuity examples live here; the lemmas are in `XM
 `XModel/ManagerC17.lean` (simulation by the never-frozen manager) and `XModel/ManagerC17b.lean` (which `load` /
 `copy_expr_from` calls are rejected, said without running `load`: `C17_frozen_load_rejected_iff`).
 The model is `XModel/Manager.lean`, the functions the driver executes in the correspondence run.
+
+The theorems up to `C17_frozen_copy_expr_from` speak about ONE bracket (a frozen copy of a state, calls, one unfreeze).
+The last section (`XModel/ManagerC17Hist.lean`) makes `freeze_tree()` / `unfreeze_tree()` events of the history, in any
+number and order: `C17_flag_is_boolean`, `C17_history_as_if_never_frozen`, `C17_history_call_by_call`,
+`C17_after_last_unfreeze`.
 -/
 namespace Properties.C17
 open Store Push Index Manager
@@ -130,5 +136,109 @@ example : (load exState false [(pb, .lit (.int 0))]).2 = none ∧
     (load exState true [(pb, .lit (.int 0))]).2 = some .valueError ∧ (load exState true []).2 = none := by decide
 example : rejectedExplB exState (.load false [(pb, .lit (.int 0))]) = false ∧
     rejectedExplB exState (.load true [(pb, .lit (.int 0))]) = true := by decide
+
+/-! ### whole histories: `freeze_tree()` / `unfreeze_tree()` as events, any number of brackets
+
+`HEv` = an API call | freeze | unfreeze; `runEvs sched s evs` runs a history (the flag events as the driver runs its
+ops `freeze` / `unfreeze`: `Manager.setF true/false`, never an exception) and returns the final state and the list of
+outcomes.  No hypothesis on the scheduler is needed beyond it being the same function on both sides of each
+statement (both managers have the same indices at every call, so `find_taskids` hands the same list to both). -/
+
+/-- **the freeze flag is a Boolean, not a nesting counter**: after ANY history of calls, freezes and unfreezes — redundant
+    freezes, unfreeze on a never-frozen manager, any number of brackets — the manager is frozen iff the last flag event
+    was a freeze (if there was none, the flag is the initial one).  `flagAfter b evs` is that Boolean. -/
+theorem C17_flag_is_boolean (sched : Sched) (s : MState) (evs : List HEv) :
+    (runEvs sched s evs).1.frozen = flagAfter s.frozen evs ∧
+    (∀ (pre : List HEv) (cs : List Call), evs = pre ++ HEv.freeze :: cs.map HEv.call →
+      (runEvs sched s evs).1.frozen = true) ∧
+    (∀ (pre : List HEv) (cs : List Call), evs = pre ++ HEv.unfreeze :: cs.map HEv.call →
+      (runEvs sched s evs).1.frozen = false) ∧
+    (∀ cs : List Call, evs = cs.map HEv.call → (runEvs sched s evs).1.frozen = s.frozen) := by
+  refine ⟨runEvs_flag sched evs s, ?_, ?_, ?_⟩
+  · intro pre cs h; rw [runEvs_flag, h]; exact flagAfter_last_freeze _ pre cs
+  · intro pre cs h; rw [runEvs_flag, h]; exact flagAfter_last_unfreeze _ pre cs
+  · intro cs h; rw [runEvs_flag, h]; exact flagAfter_no_flag_event _ cs
+
+/-- **a whole history behaves as if the manager had never been frozen**: run any history of calls, freezes and
+    unfreezes (any number of brackets, unbalanced or redundant flag calls) from an unfrozen state `s`.  Let
+    `eff sched s evs` be its calls that were not dropped by the freeze (all calls made while unfrozen; of those made
+    while frozen, the ones `rejectedExplB` lets through).  Then (1) the final state is — as a whole state: containers,
+    task table, the four indices with their insertion orders, knob memories — the state of the never-frozen manager
+    after `eff`, except for the flag, which is `flagAfter false evs`; (2) `eff` only removes calls; (3) the outcomes of
+    the kept calls are, in order, those of the never-frozen manager on `eff`; (4) every dropped call returned
+    `ValueError`; (5) no flag event raised. -/
+theorem C17_history_as_if_never_frozen (sched : Sched) (s : MState) (h : s.frozen = false) (evs : List HEv) :
+    (runEvs sched s evs).1 = setF (flagAfter false evs) (applyAll sched s (eff sched s evs)) ∧
+    (eff sched s evs).Sublist (callsOf evs) ∧
+    outsOf .kept ((kinds sched s evs).zip (runEvs sched s evs).2) = applyOuts sched s (eff sched s evs) ∧
+    (∀ x ∈ outsOf .dropped ((kinds sched s evs).zip (runEvs sched s evs).2), x = some .valueError) ∧
+    (∀ x ∈ outsOf .flag ((kinds sched s evs).zip (runEvs sched s evs).2), x = none) := by
+  have h1 := runEvs_state sched evs s
+  have h2 := runEvs_outcomes sched evs s
+  rw [setF_frozen_eq s false h] at h1 h2
+  rw [h] at h1
+  exact ⟨h1, eff_sublist sched evs s, h2⟩
+
+/-- **call by call**: split the history anywhere before a call `c` (`evs = pre ++ call c :: post`, from an unfrozen
+    `s`).  Either `c` was dropped — the manager was frozen at that moment and `c` is a call a frozen manager rejects:
+    it returned `ValueError`, the WHOLE state is untouched, and `eff` omits it; or `c` was kept — it returned exactly
+    what it returns on the never-frozen manager that received the kept calls of `pre`, the new state is that
+    manager's new state up to the flag, and `eff` contains it at that place. -/
+theorem C17_history_call_by_call (sched : Sched) (s : MState) (h : s.frozen = false)
+    (pre : List HEv) (c : Call) (post : List HEv) :
+    (droppedB (runEvs sched s pre).1 c = true ∧
+      stepEv sched (runEvs sched s pre).1 (.call c) = ((runEvs sched s pre).1, some .valueError) ∧
+      eff sched s (pre ++ HEv.call c :: post) = eff sched s pre ++ eff sched (runEvs sched s pre).1 post) ∨
+    (droppedB (runEvs sched s pre).1 c = false ∧
+      stepEv sched (runEvs sched s pre).1 (.call c) =
+        (setF (flagAfter false pre) (apply sched (applyAll sched s (eff sched s pre)) c).1,
+         (apply sched (applyAll sched s (eff sched s pre)) c).2) ∧
+      eff sched s (pre ++ HEv.call c :: post) =
+        eff sched s pre ++ c :: eff sched (stepEv sched (runEvs sched s pre).1 (.call c)).1 post) := by
+  have h1 := runEvs_at sched s pre c
+  have h2 := eff_at sched s pre c post
+  rw [setF_frozen_eq s false h, h] at h1
+  rcases h1 with ⟨hd, ha⟩ | ⟨hd, ha⟩
+  · refine Or.inl ⟨hd, ha, ?_⟩
+    rw [h2, hd, ha]; simp
+  · refine Or.inr ⟨hd, ha, ?_⟩
+    rw [h2, hd]; simp
+
+/-- **after the last `unfreeze_tree()`**: whatever the history before it (from an unfrozen `s`), the manager then IS
+    the never-frozen manager that received the kept calls `eff sched s evs` (equality of whole states, nothing left of
+    the freezes), the unfreeze itself adds nothing to `eff`, and every further history `more` — calls and further
+    freezes / unfreezes — runs on it exactly as on that manager: same final state, same outcomes. -/
+theorem C17_after_last_unfreeze (sched : Sched) (s : MState) (h : s.frozen = false) (evs more : List HEv) :
+    (runEvs sched s (evs ++ [HEv.unfreeze])).1 = applyAll sched s (eff sched s evs) ∧
+    eff sched s (evs ++ [HEv.unfreeze]) = eff sched s evs ∧
+    runEvs sched s (evs ++ HEv.unfreeze :: more) =
+      ((runEvs sched (applyAll sched s (eff sched s evs)) more).1,
+       (runEvs sched s evs).2 ++ none :: (runEvs sched (applyAll sched s (eff sched s evs)) more).2) := by
+  have h1 := after_last_unfreeze sched evs more s
+  rw [setF_frozen_eq s false h] at h1
+  exact h1
+
+/-- the one-bracket theorem `C17_as_if_never_frozen` is the instance `freeze :: calls` (then unfreeze) of the history
+    theorem: inside one bracket `eff` is `effective` -/
+theorem C17_one_bracket_is_an_instance (sched : Sched) (cs : List Call) (s : MState) :
+    eff sched s (HEv.freeze :: cs.map HEv.call) = effective sched (setF true s) cs ∧
+    (runEvs sched s (HEv.freeze :: cs.map HEv.call)).1 = applyAll sched (setF true s) cs :=
+  ⟨eff_calls_frozen sched cs (setF true s) rfl, runEvs_calls sched cs (setF true s)⟩
+
+/-! non-vacuity and the three shapes a nesting counter gets wrong (more in `Manager.HistExample`) -/
+open Manager.HistExample in
+example : (runEvs id fresh [.unfreeze, .call defB]).2 = [none, none] ∧
+    (runEvs id fresh [.freeze, .freeze, .unfreeze, .call defB]).2 = [none, none, none, none] ∧
+    (runEvs id fresh [.unfreeze, .freeze, .call defB]).2 = [none, none, some .valueError] := by decide +kernel
+
+/-- the hypotheses of the history theorems hold on a two-bracket history with kept and dropped calls, and the
+    conclusion is not trivial: six of eleven calls kept, five `ValueError`s, final values `d.b = 8`, `d.c = 16` -/
+example : HistExample.fresh.frozen = false ∧
+    (eff id HistExample.fresh HistExample.hist).length = 6 ∧ (callsOf HistExample.hist).length = 11 ∧
+    (outsOf .dropped ((kinds id HistExample.fresh HistExample.hist).zip
+      (runEvs id HistExample.fresh HistExample.hist).2)).length = 5 ∧
+    flagAfter false HistExample.hist = true ∧
+    HistExample.holdsInt (get (runEvs id HistExample.fresh HistExample.hist).1.store HistExample.pc) 16 = true := by
+  decide +kernel
 
 end Properties.C17
